@@ -431,7 +431,9 @@ impl<'o> P<'o> {
             }
             GroupExists(g) => {
                 let r = self.cond_ref(*g);
-                self.toks.push(format!("(?({}))", r));
+                // two tokens: white space (free-spacing mode) and comments may stand between the test and the `)`
+                self.toks.push(format!("(?({})", r));
+                self.t(")");
             }
             Raw(pat, ci) => {
                 if *ci {
